@@ -418,6 +418,11 @@ func (l *Lab) Check(bz []byte) abci.ResponseCheckTx {
 	return l.App.CheckTx(abci.RequestCheckTx{Tx: bz, Type: abci.CheckTxType_New})
 }
 
+// Recheck is the CheckTx a node runs, after every Commit, on the transactions still in its mempool.
+func (l *Lab) Recheck(bz []byte) abci.ResponseCheckTx {
+	return l.App.CheckTx(abci.RequestCheckTx{Tx: bz, Type: abci.CheckTxType_Recheck})
+}
+
 // Tx builds, signs and delivers msgs signed by a with the given native fee.
 func (l *Lab) Tx(a Acct, fee sdk.Coins, msgs ...sdk.Msg) abci.ResponseDeliverTx {
 	return l.Deliver(l.MustBuild(TxSpec{Msgs: msgs, Signers: []Acct{a}, Fee: fee}))
